@@ -26,13 +26,27 @@ def _mod():
     return m
 
 
+STALE = b"\xa5" * 100000      # content of every output path before the call: a rebuild writes over a longer, older file
+
+
+def _stale(*paths):
+    for p in paths:
+        with open(p, "wb") as fh:
+            fh.write(STALE)
+
+
+def rewritten(path):
+    """True when the tool wrote to an output path that held the stale content before the call"""
+    return os.path.exists(path) and open(path, "rb").read() != STALE
+
+
 def impl_update(tmp, data, uci_addr, part_addr, n, via="lib"):
     """data: bytes of the envelope file, or None (the file does not exist).  Returns (storage image, partition image)."""
     m = _mod()
     inp, st, pt = (os.path.join(tmp, x) for x in ("envelope.suit", "storage.hex", "partition.hex"))
-    for p in (inp, st, pt):
-        if os.path.exists(p):
-            os.remove(p)
+    if os.path.exists(inp):
+        os.remove(inp)
+    _stale(st, pt)
     if data is not None:
         with open(inp, "wb") as fh:
             fh.write(data)
@@ -156,7 +170,7 @@ def check_update(ck, tmp, stream, c, mres=None, via="lib"):
     else:
         if ires[0] == "ok":
             fail = "accepted although the file is missing or a value does not fit 32 bits"
-        elif any(os.path.exists(os.path.join(tmp, x)) for x in ("storage.hex", "partition.hex")):
+        elif any(rewritten(os.path.join(tmp, x)) for x in ("storage.hex", "partition.hex")):
             fail = "an output file was written although the input was rejected"
     ck.count(stream, (c["file"], c["uci"], c["part"], c["n"]), nontrivial=expect_ok(c), sample=brief(c))
     if mres is not None:
